@@ -113,7 +113,7 @@ for _k in ('sphere', 'plane', 'mirror', 'plane_mirror', 'flat_conic', 'flat_coni
 
 
 # ---- whole-system quantities on symbolic lenses ---------------------------------------------------
-def _setup(c, n, stop, finite, ap='EPD', field='angle'):
+def _setup(c, n, stop, finite, ap='EPD', field='angle', negative=False):
     lens, v = arbitrary_lens(c, n, stop=stop, finite_object=finite)
     lens.add_wavelength(0.55, is_primary=True)
     apv = c.real('ap_value', 0.05, 0.3, positive=True) if ap == 'objectNA' else c.real('ap_value', 0.5, 8.0, positive=True)
@@ -121,7 +121,10 @@ def _setup(c, n, stop, finite, ap='EPD', field='angle'):
     lens.set_field_type(field)
     fy = c.real('max_field', 1.0, 20.0, positive=True)
     lens.add_field(y=0.0)
-    lens.add_field(y=fy)
+    # negative: the field of largest magnitude is negative (the unit field Hy = 1 is still +fy: fields are normalised by magnitude)
+    lens.add_field(y=-fy if negative else fy)
+    if negative:
+        lens.add_field(y=fy * 0.4)
     return lens, v, apv, fy
 
 
@@ -170,14 +173,14 @@ for (_n, _s, _f) in ((3, 1, False), (4, 1, False), (4, 2, False), (4, 2, True), 
     _system_contract(_n, _s, _f)
 
 
-def _rays_contract(n, stop, finite, ap, field):
-    tag = 'n%d.s%d.%s.%s.%s' % (n, stop, 'fin' if finite else 'inf', ap, field)
+def _rays_contract(n, stop, finite, ap, field, negative=False):
+    tag = 'n%d.s%d.%s.%s.%s' % (n, stop, 'fin' if finite else 'inf', ap, field) + ('.negative_largest_field' if negative else '')
 
     @contract('C04.rays.' + tag, [PX + ':Paraxial.marginal_ray', PX + ':Paraxial.chief_ray', PX + ':Paraxial.EPD',
                                   PX + ':Paraxial.FNO', PX + ':Paraxial.XPD', PX + ':Paraxial.magnification',
                                   PX + ':Paraxial.invariant'], ['C04'], max_paths=64, groebner_s=40)
     def rays(c):
-        lens, v, apv, fy = _setup(c, n, stop, finite, ap, field)
+        lens, v, apv, fy = _setup(c, n, stop, finite, ap, field, negative)
         px = lens.paraxial
         n0, nl = v['n'][0], v['n'][n - 1]
         A, B, C, D = abcd(v, 1, n - 1)
@@ -242,6 +245,8 @@ for (_n, _s, _f, _a, _fl) in ((4, 1, False, 'EPD', 'angle'), (4, 2, False, 'EPD'
                               (4, 2, True, 'EPD', 'object_height'), (4, 1, True, 'EPD', 'object_height'),
                               (4, 2, True, 'objectNA', 'object_height'), (4, 1, True, 'objectNA', 'angle')):
     _rays_contract(_n, _s, _f, _a, _fl)
+_rays_contract(4, 2, False, 'EPD', 'angle', negative=True)
+_rays_contract(4, 2, True, 'EPD', 'object_height', negative=True)
 
 
 @contract('C04.linearity', [PX + ':Paraxial._trace_generic', SG + ':SurfaceGroup.trace'], ['C04'], max_paths=32)
@@ -402,3 +407,8 @@ def mirror_single(c):
     c.ensure_eq('C04.mirror.invariant_is_the_object_space_value', inv, H0, sym_only=True)
     c.ensure_eq('C04.mirror.pin_magnification_has_the_opposite_sign', mag, -mag_true)
     c.ensure_eq('C04.mirror.pin_invariant_has_the_opposite_sign', inv, -H0)
+
+
+# concrete inputs found by the defect-hunting sub-agents (bounded replay, see contracts/hunt.py)
+from . import hunt as _hunt  # noqa: E402
+_hunt.register('C04')
